@@ -235,6 +235,20 @@ def long_inputs(tier):
     yield "M0,0 L" + "1e" * n, "run of 1e"
 
 
+EXTREME = ["M1,1 a 1e-200 5 0 0 1 4,4", "M0,0 L1e999,5", "M0,0 L1e-400,5", "M 1e308 1e308 l 1e308 1e308", "M0,0 A 1e200 1e200 0 0 1 5 5",
+           "M0,0 A 1e-200 1e-200 0 0 1 5 5", "M0,0 A 1e-160 1e-160 0 0 1 5 5", "M0,0 C 1e308,1e308 -1e308,-1e308 5,5", "M0,0 A 5 5 1e999 0 1 5 5",
+           "M0,0 a 1e155 1e155 0 0 1 1e155 1e155", "M0,0 L-1e999,1e999 z", "M0,0 h1e999 v-1e999", "M0,0 Q 1e200,1e200 1e-200,1e-200", "M0,0 A 3 1e-170 0 0 1 5 5",
+           "M 1e-320 1e-320 L 2e-320 0", "M0,0 S 1e999 1 2 3", "M0,0 T inf 3", "M0,0 L nan nan", "M0,0 L 1e+ 5"]
+
+
+def check_extreme(s):
+    """numbers at the edge of the float range: totality as for every string; what is retained must still be finite"""
+    dis = check_string(s, "unknown", [])
+    for d in dis:
+        d["extreme_magnitude"] = True
+    return [d for d in dis if d["clause"] not in ("PrefixLost",)]
+
+
 def run(tier, seed):
     run = engine.Run("C09", tier, seed)
     work = engine.workdir("C09")
@@ -300,6 +314,8 @@ def run(tier, seed):
             timing.append({"what": what, "chars": len(s), "seconds": round(dt, 3)})
             run.record(case, {"dis": r, "nontrivial": True, "class": "long", "checked": ["Prompt"]}, key="long:" + what)
         run.extra["long_input_timing"] = timing
+        for s_ in EXTREME:
+            run.record({"extreme": s_}, {"dis": check_extreme(s_), "nontrivial": True, "class": "extreme", "checked": ["Totality", "NonNumeric", "AfterOp"]}, key="extreme:" + s_)
     finally:
         engine.cleanup(work)
     run.rule = ("cases = distinct token tapes of MC_C09 final states (conforming behaviour + one token fault), spelled with single "
